@@ -1253,6 +1253,19 @@ impl Ctx {
                 self.switch_inst(k.parse().unwrap());
                 self.emit("reopen".to_string(), "unit".into());
             }
+            ["instpre", ks @ ..] if self.backend == Backend::Sqlite => {
+                // several further Server objects on the same directory, constructed back to back (their storages are
+                // opened first): what a Server derives from the moment or the process it was created in is then the
+                // same for all of them
+                let sts: Vec<_> = ks.iter().map(|_| Arc::new(LogStore::new(SqliteStorage::new(self.data_dir()).expect("open sqlite (instpre)")))).collect();
+                let cfgs: Vec<_> = ks.iter().map(|_| self.cfg()).collect();
+                let svs: Vec<_> = sts.iter().zip(cfgs).map(|(st, cfg)| Server::new(cfg, Shared(st.clone()))).collect();
+                for ((k, st), sv) in ks.iter().zip(sts).zip(svs) {
+                    self.insts.insert(k.parse().unwrap(), (sv, st));
+                }
+                return;
+            }
+            ["instpre", ..] => return,
             ["savestate", path] => self.save_state(path),
             ["loadstate", path] => self.load_state(path),
             ["usedir", path] => {
@@ -1282,6 +1295,14 @@ impl Ctx {
             ["hold"] => {
                 // a second, idle connection: while it is open no close checkpoints the WAL
                 let c = rusqlite::Connection::open(self.data_dir().join("taskchampion-sync-server.sqlite3")).expect("hold");
+                let _: i64 = c.query_row("SELECT count(*) FROM clients", [], |r| r.get(0)).unwrap_or(0);
+                self.held = Some(c);
+            }
+            ["holdread"] => {
+                // a second connection INSIDE a read transaction (a backup tool, a shell left open): readers never block
+                // writers in WAL mode, they only keep the log from being reset
+                let c = rusqlite::Connection::open(self.data_dir().join("taskchampion-sync-server.sqlite3")).expect("holdread");
+                let _ = c.execute_batch("BEGIN");
                 let _: i64 = c.query_row("SELECT count(*) FROM clients", [], |r| r.get(0)).unwrap_or(0);
                 self.held = Some(c);
             }
